@@ -340,5 +340,60 @@ pub fn run(cases_path: &str, out_path: &str, tier: &str, seed: u64) {
         }
     });
 
+    // ---- a consumer that keeps reading after an error (retry loop) over a source with ONE transient fault: whatever is handed out in total
+    //      must be a prefix of the fault-free output, and a clean end of stream is only allowed after all of it
+    {
+        use pgp::armor::Dearmor;
+        use pgp::composed::Message;
+        use std::io::Read;
+        let payload: Vec<u8> = (0..3000u32).map(|i| (i * 7 + 3) as u8).collect();
+        let lit = { let mut v = vec![0xCBu8, 0xFF]; v.extend(((payload.len() + 6) as u32).to_be_bytes()); v.extend([b'b', 0, 0, 0, 0, 0]); v.extend_from_slice(&payload); v };
+        struct Raw(Vec<u8>);
+        impl pgp::ser::Serialize for Raw { fn to_writer<W: std::io::Write>(&self, w: &mut W) -> pgp::errors::Result<()> { w.write_all(&self.0)?; Ok(()) } fn write_len(&self) -> usize { self.0.len() } }
+        let mut armored = Vec::new();
+        pgp::armor::write(&Raw(lit.clone()), pgp::armor::BlockType::Message, &mut armored, None, true).expect("armor");
+        let retry_read = |r: &mut dyn Read, patience: usize| -> (Vec<u8>, bool, usize) {
+            // returns (everything handed out, clean eof seen, errors seen)
+            let mut out = Vec::new();
+            let mut buf = [0u8; 512];
+            let mut errs = 0;
+            loop {
+                match r.read(&mut buf) {
+                    Ok(0) => return (out, true, errs),
+                    Ok(k) => out.extend_from_slice(&buf[..k]),
+                    Err(_) => { errs += 1; if errs > patience { return (out, false, errs); } }
+                }
+            }
+        };
+        // the public base64 layer on its own: the armor body lines only
+        let b64_body: Vec<u8> = { let t = String::from_utf8_lossy(&armored).to_string(); t.lines().filter(|l| !l.starts_with('-') && !l.starts_with('=') && !l.is_empty()).collect::<Vec<_>>().join("\n").into_bytes() };
+        for (what, bytes, truth) in [("dearmor", &armored, &lit), ("base64_decoder", &b64_body, &lit), ("message", &lit, &payload), ("armored_message", &armored, &payload)] {
+            for sched in [vec![16usize], vec![48], vec![1000], vec![7, 64]] {
+                let probe = SchedReader::new(bytes.clone(), sched.clone());
+                let log = probe.log.clone();
+                { let mut d = Dearmor::new(SchedBufReader::new(probe)); let mut o = Vec::new(); let _ = d.read_to_end(&mut o); }
+                let ncalls = log.lock().unwrap().len().max(bytes.len() / sched[0] + 2);
+                let step = (ncalls / if thorough { 200 } else { 60 }).max(1);
+                for k in (0..ncalls).step_by(step) {
+                    for patience in [1usize, 3, 6] {
+                        nontrivial.fetch_add(1, std::sync::atomic::Ordering::Relaxed);
+                        let r = guard(|| -> Result<String, String> {
+                            let src = SchedBufReader::new(SchedReader::new(bytes.clone(), sched.clone()).with_fault(k));
+                            let (out, eof, errs) = match what {
+                                "dearmor" => { let mut d = Dearmor::new(src); retry_read(&mut d, patience) }
+                                "base64_decoder" => { let mut d = pgp::base64::Base64Decoder::new(pgp::base64::Base64Reader::new(src)); retry_read(&mut d, patience) }
+                                "message" => match Message::from_bytes(src) { Ok(mut m) => retry_read(&mut m, patience), Err(_) => return Ok("rejected at open".into()) },
+                                _ => match Message::from_armor(src) { Ok((mut m, _)) => retry_read(&mut m, patience), Err(_) => return Ok("rejected at open".into()) },
+                            };
+                            if !truth.starts_with(&out) { return Err(format!("after {errs} error(s) the reader resumed with different octets: {} octets handed out, first difference at {}", out.len(), out.iter().zip(truth.iter()).position(|(a, b)| a != b).unwrap_or(truth.len().min(out.len())))); }
+                            if eof && out.len() != truth.len() { return Err(format!("clean end of stream after {} of {} octets ({errs} error(s) on the way)", out.len(), truth.len())); }
+                            Ok(format!("{errs} errors, {} octets", out.len()))
+                        });
+                        sink.put(rec("c09.retry_after_transient_fault", json!({"reader": what, "sched": sched, "fault_at_call": k, "patience": patience}), r.is_ok(), "retry_after_fault", json!({"outcome": r.class(), "detail": match &r { Out::Ok(s) => s.clone(), o => o.detail() }})));
+                    }
+                }
+            }
+        }
+    }
     sink.finish(json!({"patterns": patterns.len(), "references": refs.len(), "nontrivial": nontrivial.load(std::sync::atomic::Ordering::Relaxed)}));
 }
